@@ -95,6 +95,7 @@ def _instrument():
 
 
 CUR = {}
+CUR_STATUS = [None]
 DIAG = {'protocol': 0, 'beyond': 0}
 DEF1 = ['caller-default']        # distinct, identity-checkable default objects
 OPS = {'G': ('get', None), 'M': ('media', None), 'D': ('default', DEF1), 'N': ('default', None)}
@@ -214,6 +215,29 @@ class RenderThenAmendA:
             CUR['mw_ran'] = True
 
 
+def error_says(ex):
+    """What an error SAYS at this moment (not its identity): type, args, cause, and for HTTP errors the fields
+    a client gets to see. Traceback and implicit context are left out (they legitimately grow)."""
+    out = {'type': type(ex).__name__, 'args': repr(ex.args), 'cause_id': id(ex.__cause__) if ex.__cause__ is not None
+           else None, 'cause': repr(ex.__cause__)}
+    for name in ('title', 'description', 'status', 'code', 'link'):
+        if hasattr(ex, name):
+            try:
+                out[name] = repr(getattr(ex, name))
+            except Exception as err:  # noqa
+                out[name] = 'raised %r' % (err,)
+    if hasattr(ex, 'to_dict'):
+        try:
+            out['dict'] = json.loads(json.dumps(ex.to_dict()))
+        except Exception as err:  # noqa
+            out['dict'] = 'raised %r' % (err,)
+    return out
+
+
+def _snap(ex):
+    CUR.setdefault('esnap', []).append((id(ex), ex, error_says(ex)))
+
+
 class EchoW:
     def on_post(self, req, resp):
         log = CUR['log']
@@ -231,6 +255,7 @@ class EchoW:
                     v = req.get_media(default_when_empty=default)
             except Exception as ex:  # noqa
                 log.append((op, default, 'exc', ex, _touch() - t0))
+                _snap(ex)
                 last = ex
             else:
                 log.append((op, default, 'ret', v, _touch() - t0))
@@ -270,6 +295,7 @@ async def _interrupted_access(req, code, log):
                 raise
     except Exception as ex:  # noqa
         log.append(('get', None, 'exc', ex, _touch() - t0))
+        _snap(ex)
     else:
         log.append(('get', None, 'ret', v, _touch() - t0))
     CUR.setdefault('hdelta', []).append(0)
@@ -295,6 +321,7 @@ class EchoA:
                     v = await req.get_media(default_when_empty=default)
             except Exception as ex:  # noqa
                 log.append((op, default, 'exc', ex, _touch() - t0))
+                _snap(ex)
                 last = ex
             else:
                 log.append((op, default, 'ret', v, _touch() - t0))
@@ -754,6 +781,8 @@ def deserialize(stack, ct, body, history, propagate, chunks=None, with_cl=True, 
             problems.append('asgi outcome %s %r' % (res.outcome, res.exc))
         CUR['io_failures'] = CUR.get('rcv_failures', 0)
     DIAG['protocol'] += len(res.problems)
+    CUR['wire_body'] = res.body
+    CUR_STATUS[0] = res.status
     return log, res.status, problems
 
 
@@ -832,6 +861,39 @@ def scribble_log(rec, log):
         if k == 'ret' and isinstance(payload, (dict, list)) and payload is not default and payload is not DEF1:
             scribble(payload)
             rec.count('mon.media_mutated_after_use')
+
+
+def check_error_content(rec, wit, status, propagated=None):
+    """'Re-raise the same error': the same instance must also SAY the same on every access (cause, description,
+    rendered fields), and what goes on the wire when it is propagated is what it said when it was first raised."""
+    first = {}
+    ok = True
+    for n, (key, ex, says) in enumerate(CUR.get('esnap', [])):
+        rec.count('mon.error_content')
+        if key not in first:
+            first[key] = (n, says)
+        elif says != first[key][1]:
+            changed = sorted(k for k in set(says) | set(first[key][1]) if says.get(k) != first[key][1].get(k))
+            rec.violation('error-content-changed', dict(
+                wit, detail='the error re-raised at failing access #%d no longer says what it said at failing access '
+                '#%d: %s' % (n + 1, first[key][0] + 1, changed), before={k: first[key][1].get(k) for k in changed},
+                after={k: says.get(k) for k in changed}))
+            ok = False
+            break
+    if propagated is not None and id(propagated) in first and isinstance(first[id(propagated)][1].get('dict'), dict) \
+            and status is not None and 400 <= status < 500:
+        try:
+            rendered = json.loads(CUR.get('wire_body', b'').decode('utf-8'))
+        except ValueError:
+            rendered = None
+        if isinstance(rendered, dict):
+            rec.count('mon.error_on_wire')
+            if rendered != first[id(propagated)][1]['dict']:
+                rec.violation('error-on-wire-differs', dict(
+                    wit, detail='the rendered error body is not what the error said when it was first raised',
+                    rendered=rendered, first=first[id(propagated)][1]['dict']))
+                ok = False
+    return ok
 
 
 def status_of(exc):
@@ -958,6 +1020,8 @@ def run_request(rec, stack, kind, ct, ct_class, body, history, propagate, chunks
         history = [c for c in history if c not in 'XT']
         rec.count('mon.retry_after_interruption')
     ok = judge(rec, wit, kind, ct_class, body, history, propagate, log, status, problems)
+    last = log[-1] if log else None
+    ok = check_error_content(rec, wit, status, last[3] if (propagate and last and last[2] == 'exc') else None) and ok
     scribble_log(rec, log)
     rec.count('req.' + stack)
     if stack == 'a':
@@ -1462,6 +1526,8 @@ def run_faulty(rec, stack, ct, body, history, fault, chunks=None, with_cl=True, 
                 fire('handler-invoked-again', 'call #%d invoked the media handler %d more time(s)' % (i + 1, hdelta[i]))
     if status != 200:
         fire('wire-status', 'responder completed but status is %r' % status)
+    if not check_error_content(rec, wit, status):
+        fired.append('error-content-changed')
     scribble_log(rec, log)
     if fault.get('hplan', {}).get('succeed_second'):
         rec.count('mon.faulty.succeed_second')
@@ -1525,6 +1591,8 @@ def phase_handler_config(rec):
                    (b'[' * 100000, 'GM')]
     try:
         for cfg in all_cfgs():
+            if rec.tier == 'quick' and cfg[3] == 'sub' and cfg[1] != 'default':
+                continue        # quick: custom request/response types with every dumps, default loads only
             set_cfg(cfg)
             for doc in CONFIG_DOCS:
                 for ct in (None, JSON + '; charset=utf-8', VND):
@@ -1679,10 +1747,10 @@ def phase_form_options(rec):
 def phase_repeated_bodies(rec):
     """Byte-identical bodies in consecutive requests (same and different stacks, apps and configurations); the
     application mutates every media object after use, so shared state between requests shows up as a wrong
-    document in the later request. Driven past typical cache sizes (300 distinct bodies, then all again)."""
+    document in the later request. Driven past typical cache sizes (280 distinct form bodies, then all again)."""
     idx = 0
-    bodies = [('form', FORM, b'csrf=%d&tags=a&tags=b%%2Cc&note=' % i) for i in range(300)]
-    bodies += [('json', JSON, b'{"id": %d, "tags": ["a", {"b": [1]}]}' % i) for i in range(300)]
+    bodies = [('form', FORM, b'csrf=%d&tags=a&tags=b%%2Cc&note=' % i) for i in range(280)]
+    bodies += [('json', JSON, b'{"id": %d, "tags": ["a", {"b": [1]}]}' % i) for i in range(100)]
     try:
         for rnd in range(2):
             for kind, ct, body in bodies:
@@ -1727,6 +1795,8 @@ def run_consistent(rec, stack, ct, body, history, cl_header, chunks=None, tag='f
             fired.append(label)
             rec.violation(label, dict(wit, detail=complaint, log=describe(log), status=status))
     rec.count('framing.first_' + ('value' if log[0][2] == 'ret' else type(log[0][3]).__name__))
+    if not check_error_content(rec, wit, status):
+        fired.append('error-content-changed')
     scribble_log(rec, log)
     rec.case(('framing', CFG[0], stack, ct, body, ''.join(history), cl_header, tuple(chunks or ())))
     return not fired
@@ -1738,7 +1808,7 @@ def phase_framing(rec, maxlen):
     bodies = [(JSON, b'{"k": [1, "\xc3\xa9"]}'), (None, b'[1]'), (FORM, b'a=1&a=2'), (JSON, b''), (VND, b'{"a"')]
     idx = 0
     try:
-        for cfg in (None, ('default', 'default', 'sub', 'sub', 'default')):
+        for cfg in (None, ('default', 'default', 'sub', 'sub', 'default'))[:1 if rec.tier == 'quick' else 2]:
             set_cfg(cfg)
             for cl in CL_HEADERS:
                 try:
@@ -1796,6 +1866,8 @@ def run_settled(rec, stack, ct, body, history, fault, chunks=None, with_cl=True,
     rec.count('drain.first_' + ('value' if log[0][2] == 'ret' else type(log[0][3]).__name__))
     if status != 200:
         fire('wire-status', 'responder completed but status is %r' % status)
+    if not check_error_content(rec, wit, status):
+        fired.append('error-content-changed')
     scribble_log(rec, log)
     rec.case(('drain', CFG[0], stack, ct, len(body), ''.join(history), repr(fault), tuple(chunks or ()), with_cl))
     return not fired
@@ -1832,6 +1904,43 @@ def phase_drain(rec, maxlen):
                                                 with_cl=bool(idx // 2 % 2) or stack == 'w')
                                     rec.count('phase.drain')
                                     rec.count('drain.fault' if fault else 'drain.clean')
+    finally:
+        set_cfg(None)
+
+
+def phase_error_content(rec):
+    """The same undecodable body, every access history of length 1..3 ending in a failing access that is
+    propagated, both stacks, default and subclassed handlers: the 400 answer on the wire is one and the same
+    document whatever the number of earlier accesses and whichever the stack."""
+    bodies = [('json', JSON, b'{"k": [1, '), ('json', None, b'"\xe9"'), ('json', VND, b'{"a": 1} x'),
+              ('form', FORM, b'a=\xe9'), ('json', JSON, b''), ('json', JSON, b'\xef\xbb\xbf{}')]
+    idx = 0
+    try:
+        for cfg in (None, ('default', 'default', 'sub', 'sub', 'default'), ('bytes', 'str-only', 'stock', 'stock', 'default')):
+            set_cfg(cfg)
+            for kind, ct, body in bodies:
+                idx += 1
+                if idx % rec.nshards != rec.shard:
+                    continue
+                seen = {}
+                for L in (1, 2, 3):
+                    for hist in itertools.product('GMD', repeat=L):
+                        if hist[-1] == 'D' and not body:
+                            continue                      # the default is returned: nothing is propagated
+                        for stack in 'wa':
+                            ok, log = run_request(rec, stack, kind, ct, 'designated', body, list(hist), True,
+                                                  [1] * len(body) if (stack == 'a' and L == 2 and body) else None,
+                                                  with_cl=L != 3, tag='error-content')
+                            rec.count('phase.error_content')
+                            if not log or log[-1][2] != 'exc':
+                                continue
+                            wire = (CUR_STATUS[0], CUR.get('wire_body'))
+                            seen.setdefault(wire, (stack, ''.join(hist)))
+                if len(seen) > 1:
+                    rec.violation('error-answer-depends-on-history-or-stack', {
+                        'mode': 'error-content', 'cfg': CFG[0], 'kind': kind, 'ct': ct, 'body_hex': body.hex(),
+                        'answers': [[st, wb[:300], who] for (st, wb), who in seen.items()]})
+                rec.count('mon.error_answers_compared')
     finally:
         set_cfg(None)
 
@@ -1877,6 +1986,8 @@ def phase_hostile(rec):
     for desc, body in hostile_bodies():
         for stack in 'wa':
             for ct in (JSON, None, 'application/problem+json'):
+                if len(body) > 4096 and ct != JSON:
+                    continue                     # the big bodies under the plain JSON type only
                 idx += 1
                 if idx % rec.nshards != rec.shard:
                     continue
@@ -1904,7 +2015,7 @@ def phase_hostile(rec):
             rec.count('phase.hostile_form')
 
 
-MIN_RANDOM_ROUNDS = 150
+MIN_RANDOM_ROUNDS = 60
 
 
 def phase_random(rec):
@@ -2007,21 +2118,22 @@ def run(rec):
     apps()
     phase_corpus(rec)
     phase_reassign(rec)
-    phase_faulty(rec, 3 if quick else 4)
+    phase_faulty(rec, 2 if quick else 4)
     phase_handler_config(rec)
     phase_form_options(rec)
     phase_repeated_bodies(rec)
     phase_framing(rec, 2 if quick else 3)
     phase_drain(rec, 2 if quick else 3)
+    phase_error_content(rec)
     phase_interrupted(rec, quick)
-    phase_histories(rec, 4 if quick else 5)
+    phase_histories(rec, 3 if quick else 5)
     phase_truncations(rec, quick)
     phase_chunkings(rec, quick)
     phase_hostile(rec)
     if rec.shard == 0:
         rec.note('exhaustive: all call histories of length <= %d over 4 call kinds x 14 body classes x 2 stacks x '
                  'propagate; every prefix of 12 seed bodies; all 2^(n-1) chunkings of a %s-byte JSON body and a form '
-                 'body, with and without Content-Length' % (4 if quick else 5, '11' if quick else '16'))
+                 'body, with and without Content-Length' % (3 if quick else 5, '11' if quick else '16'))
     rec.exhaustive = True
     phase_random(rec)
     for k, v in DIAG.items():
@@ -2056,10 +2168,10 @@ def run(rec):
     rec.floor('phase.truncations', 300)
     rec.floor('phase.chunkings', 500)
     rec.floor('phase.hostile', 300)
-    rec.floor('class.deep_nesting', 20)
-    rec.floor('class.huge_number', 10)
-    rec.floor('mon.alt_style_json', 100)
-    rec.floor('mon.mutated_json', 100)
+    rec.floor('class.deep_nesting', 8)
+    rec.floor('class.huge_number', 6)
+    rec.floor('mon.alt_style_json', 80)
+    rec.floor('mon.mutated_json', 80)
     rec.floor('depth.6', 3)
     rec.floor('mon.reassigned_after_render', 50)
     rec.floor('mon.render_body_sent', 50)
@@ -2068,7 +2180,7 @@ def run(rec):
     rec.floor('mon.same_object.dict', 40)
     rec.floor('mon.same_object.list', 40)
     rec.floor('phase.reassign', 100)
-    rec.floor('phase.faulty', 2000)
+    rec.floor('phase.faulty', 1500)
     rec.floor('phase.config', 1200)
     rec.floor('phase.config_requests', 500)
     for name in DUMPS:
@@ -2078,15 +2190,15 @@ def run(rec):
     for name in ('stock', 'sub'):
         rec.floor('config.class.' + name, 500)
         rec.floor('config.form.' + name, 10)
-    rec.floor('random.configured', 30)
+    rec.floor('random.configured', 12)
     for name in TYPES:
-        rec.floor('config.types.' + name, 600)
+        rec.floor('config.types.' + name, 400)
     rec.floor('phase.form_options', 1500)
     for name in FORM_OPTS:
         if name != 'default':
             rec.floor('formopt.' + name, 500)
             rec.floor('formopt.comma_in_later_value.' + name, 200)
-    rec.floor('phase.repeated_bodies', 4000)
+    rec.floor('phase.repeated_bodies', 2500)
     rec.floor('config.lengthaware.json', 60)
     rec.floor('config.lengthaware.requests', 30)
     rec.floor('config.lengthaware.form', 20)
@@ -2096,9 +2208,13 @@ def run(rec):
     rec.floor('mon.drain.w', 200)
     rec.floor('mon.drain.a', 300)
     rec.floor('mon.drain.repeat_call.value', 300)
-    rec.floor('phase.framing', 5000)
-    rec.floor('mon.framing.w', 2000)
-    rec.floor('mon.framing.a', 2000)
+    rec.floor('mon.error_content', 20000)
+    rec.floor('mon.error_on_wire', 3000)
+    rec.floor('phase.error_content', 800)
+    rec.floor('mon.error_answers_compared', 15)
+    rec.floor('phase.framing', 3000)
+    rec.floor('mon.framing.w', 1500)
+    rec.floor('mon.framing.a', 1500)
     rec.floor('mon.framing.repeat_call.error', 1000)
     rec.floor('mon.framing.repeat_call.value', 500)
     rec.floor('framing.first_HTTPInvalidHeader', 500)
@@ -2112,16 +2228,16 @@ def run(rec):
     rec.floor('interrupted.deadline', 1000)
     rec.floor('interrupted.2_times', 500)
     rec.floor('interrupted.after_consuming_wire_chunks', 1500)
-    rec.floor('mon.faulty.io.w', 100)
-    rec.floor('mon.faulty.io.a', 300)
-    rec.floor('mon.faulty.handler.w', 1000)
-    rec.floor('mon.faulty.handler.a', 1000)
-    rec.floor('mon.faulty.sync_handler', 1000)
-    rec.floor('mon.faulty.async_handler', 1000)
-    rec.floor('mon.faulty.succeed_second', 1000)
-    rec.floor('mon.faulty.repeat_call', 5000)
+    rec.floor('mon.faulty.io.w', 40)
+    rec.floor('mon.faulty.io.a', 200)
+    rec.floor('mon.faulty.handler.w', 600)
+    rec.floor('mon.faulty.handler.a', 600)
+    rec.floor('mon.faulty.sync_handler', 600)
+    rec.floor('mon.faulty.async_handler', 600)
+    rec.floor('mon.faulty.succeed_second', 600)
+    rec.floor('mon.faulty.repeat_call', 1500)
     for name in EXC_FACTORIES:
-        rec.floor('mon.faulty.exc.' + name, 200)
+        rec.floor('mon.faulty.exc.' + name, 150)
 
 
 # ------------------------------------------------------------------ replay
@@ -2154,6 +2270,10 @@ def replay(rec, w):
                     rec.violation('roundtrip-' + label, dict(wit, detail=complaint))
         rec.case(('replay', 1))
         rec.case(('replay', 2))
+        return
+    if wit.get('mode') == 'error-content':
+        rec.nshards, rec.shard = 1, 0
+        phase_error_content(rec)
         return
     if wit.get('mode') == 'settled':
         tail = wit['body_len'] - 4 - len(PREFIX_JSON)
